@@ -158,11 +158,13 @@ def actions_for(kind):
     return ["kill_hard", "kill_soft"]
 
 
-def gen_fault(rng, kinds, nlines, allow_lines=True):
+def gen_fault(rng, kinds, nlines, allow_lines=True, swarm=None):
+    """swarm = the subset of fault actions enabled for THIS plan (swarm testing: every plan enables its own subset)."""
     if not kinds:
         return None
+    enabled = swarm or ["kill_hard", "kill_soft", "oserror"]
     if allow_lines and nlines and rng.random() < 0.15:
-        return {"line": rng.randint(1, nlines), "action": rng.choice(["kill_hard", "kill_soft"])}
+        return {"line": rng.randint(1, nlines), "action": rng.choice([a for a in enabled if a != "oserror"] or ["kill_soft"])}
     n = len(kinds)
     window = [i for i, k in enumerate(kinds) if k.startswith("disk:")]
     if window and rng.random() < 0.55:
@@ -171,7 +173,8 @@ def gen_fault(rng, kinds, nlines, allow_lines=True):
     else:
         i = rng.randrange(n)
     kind = kinds[i]
-    f = {"at": i + 1, "action": rng.choice(actions_for(kind))}
+    acts = [a for a in actions_for(kind) if a in enabled] or actions_for(kind)
+    f = {"at": i + 1, "action": rng.choice(acts)}
     if kind == "disk:write":
         f["keep"] = rng.choice([0, 0, 1, 0.5, -1, 8192, rng.randint(2, 400), rng.random()])
     return f
@@ -197,6 +200,8 @@ def gen_plan_c07(rng, tier, idx, opts):
             "clock_faults": gen_clock_faults(rng), "incarnations": [], "lookups": False}
     nv = len(RW.variations_of(cfg))
     n_faulty = rng.choice([0, 1, 1, 1, 1, 2, 2, 3]) if not big else rng.choice([1, 1, 2])
+    swarm = rng.choice([None, None, ["kill_hard"], ["kill_soft"], ["oserror", "kill_soft"], ["kill_hard", "oserror"]])
+    plan["swarm"] = swarm
     use_index = rng.random() < 0.15
     for k in range(n_faulty):
         call = {"kind": "index", "i": rng.randrange(nv)} if (use_index and rng.random() < 0.6) else {"kind": "all"}
@@ -205,9 +210,9 @@ def gen_plan_c07(rng, tier, idx, opts):
         nl = len(nlines) if isinstance(nlines, list) else 0
         if big:
             # bias towards the periodic save around repetition 500 / 1000
-            inc["fault"] = gen_fault(rng, kinds, 0, allow_lines=False)
+            inc["fault"] = gen_fault(rng, kinds, 0, allow_lines=False, swarm=swarm)
         else:
-            inc["fault"] = gen_fault(rng, kinds, nl)
+            inc["fault"] = gen_fault(rng, kinds, nl, swarm=swarm)
         plan["incarnations"].append(inc)
         if k > 0:
             prevf = plan["incarnations"][k - 1].get("fault") or {}
